@@ -339,7 +339,7 @@ def run_check(mod, tier="quick", seed=0, replay=None):
     corr_err = ""
     if pr["driver_ok"]:
         try:
-            diffs, model_lines = correspond(pid, results)
+            diffs, model_lines = correspond(getattr(mod, "MODEL", pid), results)
             corr_ok = not diffs
         except Exception as e:
             corr_err = str(e)
@@ -459,7 +459,7 @@ def run_replay(mod, path):
     r = mod.run_case(case)
     log("case:", json.dumps(case, default=str)[:2000])
     try:
-        out = run_driver(mod.ID, ["reset"] + r.lines)[1:]
+        out = run_driver(getattr(mod, "MODEL", mod.ID), ["reset"] + r.lines)[1:]
     except Exception as e:
         out = ["<driver unavailable: %s>" % e] * len(r.lines)
     for op, e, g in zip(r.lines, r.expect, out):
